@@ -72,12 +72,12 @@ func main() {
 	r.Rule("case = (2-4 registry hosts out of a pool incl. same name/different port, each with own credential {user+password, +refresh token, refresh only, static access token, wrong password, none}, " +
 		"scheme {Basic, Bearer, open, unknown}, realm on {own host, foreign token host (possibly shared), another registry's host}; one auth.Client with cache flavour {none, NewCache, NewSingleContextCache}, ForceAttemptOAuth2 on/off). " +
 		"seq: history of 8-30 ops (requests GET/HEAD/POST/PUT/DELETE/ping/catalog/mount with scope hints {none, exact, oddly written, superset, extra repo, for another host, global}, token expiry, scheme change, realm move). " +
-		"conc: warm-up, then rounds of groups of identical cold requests released together with background traffic to other hosts; the token endpoint or the credential helper is held until all entered Cache.Set, then nobody / the fetch owner (once or twice in a row) / a waiter has its context ended by the harness with context.Canceled or context.DeadlineExceeded (manual contexts, no wall clock); plus unsynchronised storms. " +
+		"conc: warm-up, then rounds of groups of identical cold requests released together with background traffic to other hosts; the token endpoint or the credential helper is held until all entered Cache.Set, then nobody / the fetch owner (once or twice in a row) / a waiter has its context ended by the harness with context.Canceled or context.DeadlineExceeded (manual contexts, no wall clock); plus unsynchronised storms and, for the single-context cache, probes of 2-8 concurrent requests with different scopes to one host that enter the host-keyed Cache.Set together (spin barrier in the hook). " +
 		"Every request at the innermost transport is scanned for every secret (raw, base64, form/query-decoded); every returned response is matched with the registry model's last answer. " +
 		"distinct = hash(flavour, force, per-registry (scheme, realm kind, credential kind), op / round shapes); non-trivial = at least one send happened while the client held a secret or token of another host, and (seq) a cached token was presented by a request other than the one that fetched it, or the flavour is none, " +
 		"(conc) at least one group had >= 2 live requests and its token fetch or credential lookup was held while all of them were inside Cache.Set (for flavour none: all held at once)")
 	r.Assume("the world's transport is in-process (no sockets): it honours req.Context() and returns the context's error, which http.Client.Do wraps in *url.Error as net/http does")
-	r.Assume("NewSingleContextCache is host-keyed by documentation: scope-set equality of reused tokens is demanded for NewCache / no cache only, and concurrent mixes on a single-context cache keep one request shape per host (the documented single context); mixed shapes are run unjudged and counted")
+	r.Assume("NewSingleContextCache is host-keyed by documentation: scope-set equality of reused tokens is demanded for NewCache / no cache only; host, scheme and the liveness clause are demanded for it too, also when several scopes are requested from one host concurrently (mixed storms and the hook-synchronised single-context probe)")
 	r.Assume("valid credentials = every secret the client was given for the host is the one the registry / its token service accepts and suffices for the registry's scheme; anonymous access is refused by the world and not judged for liveness")
 	r.Assume("interleavings of the concurrent phases are sampled, not enumerated; coalescing of a late request depends on scheduling and is counted, never demanded")
 
@@ -178,6 +178,7 @@ type reqSpec struct {
 var lastEnv *env
 
 type env struct {
+	probe   atomic.Pointer[barrier]
 	caseIdx int
 	rng     *rand.Rand
 	phase   string
@@ -636,6 +637,9 @@ func (e *env) judge(o outcome, live bool, what string) {
 			e.violate("cancelled-fetch-shared", fmt.Sprintf("%s: request to %s with valid credentials and a live context failed with another request's cancellation: %v", what, rs.Host, o.err), detail())
 		case o.err != nil:
 			e.violate("valid-request-failed", fmt.Sprintf("%s: request to %s with valid credentials failed: %v", what, rs.Host, o.err), detail())
+		case o.status == http.StatusUnauthorized && e.flavour == "single" && st.Fetches == 1 && e.presentedForeignFetch(o.corr, st):
+			e.violate("singlectx-concurrent-contexts:other-requests-token-returned",
+				fmt.Sprintf("%s: NewSingleContextCache: request %d to %s fetched its own token, but presented a token fetched by a concurrent request with another scope on its final send and ended with 401", what, o.corr, rs.Host), detail())
 		case o.status == http.StatusUnauthorized:
 			e.violate("valid-request-ended-401", fmt.Sprintf("%s: request to %s (%s %s) with valid credentials ended with 401 after %d sends and %d token fetches", what, rs.Host, o.spec.Method, o.spec.Path, st.Sends, st.Fetches), detail())
 		case o.respID == "" || o.respID != st.LastRespID:
@@ -654,6 +658,17 @@ func (e *env) judge(o outcome, live bool, what string) {
 	} else {
 		e.count("liveness_not_judged", 1)
 	}
+}
+
+// presentedForeignFetch reports whether the credential on the request's last
+// send is a token that another request fetched.
+func (e *env) presentedForeignFetch(corr int, st authmodel.ReqState) bool {
+	if len(st.Presented) == 0 {
+		return false
+	}
+	_, tok, _ := strings.Cut(st.Presented[len(st.Presented)-1], " ")
+	it := e.world.IssuedToken(strings.TrimSpace(tok))
+	return it != nil && it.FetchCorr != corr
 }
 
 // collect moves the world monitor's violations into the result.
@@ -680,6 +695,7 @@ func (e *env) finish(key string, nt bool) {
 		}
 	}
 	e.res.Count("hook_auth_cache_set_enter", e.hooks.Load())
+	e.res.Observe("client_and_world_configurations", e.caseKey())
 	opp := c["cross_host_opportunities"] > 0
 	reuse := c["token_reuses_by_other_request"] > 0 || e.flavour == "none"
 	e.res.Key = key
@@ -690,12 +706,42 @@ func (e *env) finish(key string, nt bool) {
 	}
 }
 
+// judgeSingleCtxMixed decides whether several concurrent requests with
+// different scopes to one host through NewSingleContextCache (the probe and the
+// mixed storms) are judged for liveness. The C16 quantifier lists the
+// single-context flavour under concurrent mixes, so they are (repaired in /repo
+// by ef7f93a: the host-keyed secondary Set returned a concurrent request's token).
+const judgeSingleCtxMixed = true
+
+// barrier makes the requests of a probe enter the host-keyed (secondary)
+// Cache.Set together: the hook only widens an interleaving that exists anyway.
+type barrier struct {
+	key     string
+	need    int64
+	arrived atomic.Int64
+}
+
+// arrive spins (the window that follows is a few hundred nanoseconds wide, a
+// channel wake-up would spread the requests too much); it gives up after a
+// bounded number of spins so that a missing participant cannot block a case.
+func (b *barrier) arrive() {
+	b.arrived.Add(1)
+	for n := 0; b.arrived.Load() < b.need && n < 2_000_000; n++ {
+		if n%64 == 63 {
+			runtime.Gosched()
+		}
+	}
+}
+
 func installHook(e *env) {
 	fn := func(point, key string) {
 		if point == "auth.cache.set.enter" {
 			e.hooks.Add(1)
 			if g := e.gate; g != nil {
 				g.hookHits.Add(1)
+			}
+			if b := e.probe.Load(); b != nil && key == b.key {
+				b.arrive()
 			}
 		}
 	}
@@ -910,6 +956,10 @@ func runConc(e *env, i int) {
 			_ = ok
 			continue
 		}
+		if e.flavour == "single" && rng.IntN(4) == 0 {
+			shape = append(shape, singleCtxProbe(e, rd))
+			continue
+		}
 		s, ok := coalesceRound(e, rd)
 		shape = append(shape, s)
 		if ok {
@@ -979,7 +1029,7 @@ func storm(e *env, rd int) (string, bool) {
 	for g := range outs {
 		for _, o := range outs[g] {
 			e.regs[o.spec.Reg].touched = true
-			if mixed {
+			if mixed && !judgeSingleCtxMixed {
 				st := e.world.State(o.corr)
 				if e.valid(e.regs[o.spec.Reg]) && (o.err != nil || o.status == 401 || st.Sends > 3 || st.Fetches > 1) {
 					e.count("unjudged_singlectx_mixed_shapes_anomalies", 1)
@@ -994,12 +1044,77 @@ func storm(e *env, rd int) (string, bool) {
 		}
 	}
 	if mixed {
+		e.count("singlectx_mixed_storms", 1)
 		for _, rs := range e.regs {
 			rs.lastSpec = nil
 		}
 	}
 	e.count("storm_rounds", 1)
 	return fmt.Sprintf("storm%dx%d", k, per), false
+}
+
+// singleCtxProbe: several concurrent requests with different scopes to one
+// Bearer host through NewSingleContextCache, made to enter the host-keyed
+// Cache.Set together. Outside the cache's documented use (one context); see
+// judgeSingleCtxMixed.
+func singleCtxProbe(e *env, rd int) string {
+	rng := e.rng
+	reg := -1
+	for _, k := range shuffled(rng, []int{0, 1, 2, 3}[:len(e.regs)]) {
+		rs := e.regs[k]
+		if e.world.Registry(rs.Host).Scheme == authmodel.SchemeBearer && e.valid(rs) && rs.CredKind != "access" {
+			reg = k
+			break
+		}
+	}
+	if reg < 0 {
+		return "probe-none"
+	}
+	rs := e.regs[reg]
+	k := 2 + rng.IntN(7)
+	var specs []*reqSpec
+	for j := 0; j < k; j++ {
+		sp := e.genRequest(reg, fmt.Sprintf("probe%d-%d/%s", rd, j, e.repos[rng.IntN(len(e.repos))]))
+		specs = append(specs, sp)
+	}
+	e.ops = append(e.ops, fmt.Sprintf("single-context probe: %d concurrent requests with different scopes to %s", k, rs.Host))
+	b := &barrier{key: rs.Host + " Bearer ", need: int64(k)}
+	e.probe.Store(b)
+	defer e.probe.Store(nil)
+	var wg sync.WaitGroup
+	outs := make([]outcome, k)
+	start := make(chan struct{})
+	for j := range specs {
+		wg.Add(1)
+		go func(j int) {
+			defer wg.Done()
+			<-start
+			outs[j] = e.do(specs[j], nil)
+		}(j)
+	}
+	close(start)
+	if !waitWG(&wg, 15*time.Second) {
+		hang(e, "single-context probe")
+		return "probe-hung"
+	}
+	for _, o := range outs {
+		st := e.world.State(o.corr)
+		e.count("singlectx_probe_requests", 1)
+		if !judgeSingleCtxMixed {
+			if o.err != nil || o.status == 401 || st.Sends > 3 || st.Fetches > 1 {
+				e.count("unjudged_singlectx_probe_anomalies", 1)
+				if o.err == nil && o.status == 401 && len(st.Presented) > 0 {
+					e.count("unjudged_singlectx_probe_ended_401_with_other_requests_token", 1)
+				}
+			}
+			continue
+		}
+		e.judge(o, true, fmt.Sprintf("single-context probe (%d concurrent requests with different scopes to one host, entering the host-keyed Set together)", k))
+	}
+	rs.touched = true
+	rs.lastSpec = nil
+	e.count("singlectx_probe_rounds", 1)
+	return fmt.Sprintf("probe%d", k)
 }
 
 func waitWG(wg *sync.WaitGroup, d time.Duration) bool {
@@ -1032,14 +1147,14 @@ func hang(e *env, where string) {
 	if e.world.Inflight() == 0 && held == 0 && inOnce > 0 && !strings.Contains(dump, "auth.(*Client).fetch") {
 		e.violate("request-never-ends:waiters-blocked-on-once-without-fetch-in-flight",
 			fmt.Sprintf("%s: %d request goroutines are blocked in syncutil.Once.Do while no token fetch is in flight anywhere", where, inOnce),
-			map[string]any{"goroutines": tail(dump, 8000)})
+			map[string]any{"goroutines": head(dump, 8000)})
 		return
 	}
 	e.stop = true
 	e.res.Inconc = fmt.Sprintf("%s: watchdog fired (inflight=%d held=%d inOnce=%d)", where, e.world.Inflight(), held, inOnce)
 }
 
-func tail(s string, n int) string {
+func head(s string, n int) string {
 	if len(s) > n {
 		return s[:n]
 	}
